@@ -23,7 +23,7 @@ From Coq Require Import List NArith Bool Arith.
 From Coq.Strings Require Import Byte.
 Import ListNotations.
 From OV Require Import Base.Bytes Model.Chunk Proofs.Chunk Proofs.ChunkLines Proofs.ChunkBom Proofs.ChunkTop
-  Proofs.ChunkBRR Proofs.ChunkBufRead Proofs.ChunkStack.
+  Proofs.ChunkBRR Proofs.ChunkBufRead Proofs.ChunkStack Proofs.ChunkAlias.
 
 (* A consumer that reads a source to the end with reads of any fixed positive size sees the same
    bytes and the same final error under every chunking of the same bytes. *)
@@ -122,6 +122,29 @@ Theorem stack_replacing_spec : forall N fuel F cap cs wl t data' t',
     drain_rd _ (edi_bytes_rd N fuel) F cap (brr_init, (brr_init, (b, s')))
     = Ok (a_replace1 NL [] (a_replace1 CR [] data'), tail_err t').
 Proof. exact stack_replacing_spec. Qed.
+
+(* The aliasing discipline of the fixedlength2 unprocessed-lines buffer (flatfile/fixedlength/
+   reader.go readLine: "copy the last line before the next read"): for ANY number of buffered
+   lines (rows: n, header/footer envelopes of any length) and any sequence of readLine /
+   popFrontLinesBuf / linesToNode-matchHeader-matchFooter uses, no line is read after the bufio
+   buffer it refers to may have moved.  The chunk schedule decides only WHEN the buffer moves;
+   the discipline makes the results independent of it. *)
+Theorem fl2_no_poison : forall ops st,
+  forallb lb_code_op ops = true -> lb_inv st -> lb_run st ops <> LPoison.
+Proof. exact fl2_no_poison. Qed.
+
+(* Skipping the copy for a single read (e.g. "the next line is already buffered") breaks it with
+   a three-line envelope. *)
+Theorem fl2_skipcopy_refuted :
+  exists ops, lb_run lb_init ops = LPoison /\
+              length (filter (fun o => negb (lb_code_op o)) ops) = 1.
+Proof. exact fl2_skipcopy_refuted. Qed.
+
+Example fl2_nonvacuous :
+  lb_inv lb_init /\
+  lb_run lb_init [LRead 0 true; LUse 1; LRead 1 true; LRead 0 true; LRead 0 true; LUse 4; LPop 4;
+                  LRead 2 false; LUse 0] = LOk (mkLB [] 8).
+Proof. split; [exact lb_inv_init|reflexivity]. Qed.
 
 (* Non-vacuity of the byte-stack theorems: BOM, CR LF pairs, cut inside each of them. *)
 Example c09_stack_nonvacuous :
